@@ -373,6 +373,21 @@ func (x *exec) beginTx(tx *Tx, blk, ti int) {
 	x.setNonce(sender, n+1)
 }
 
+// beginSys opens a system-call scope the way core/state_processor.go does
+// (ProcessBeaconBlockRoot, ProcessParentBlockHash, processRequestsSystemCall):
+// Prepare with zero sender and coinbase, SetTxContext(zero hash, 0, index), warm
+// the called contract. No nonce bump, no value transfer.
+func (x *exec) beginSys(tx *Tx, idx uint32) {
+	target := addrOf(tx.Dst)
+	x.m.Prepare(common.Address{}, common.Address{}, nil, nil, nil, nil)
+	x.m.SetTxContext(common.Hash{}, 0, idx)
+	if x.sut() {
+		x.st.Prepare(rulesOf(x.m.rules), common.Address{}, common.Address{}, nil, nil, nil)
+		x.st.SetTxContext(common.Hash{}, 0, idx)
+	}
+	x.addAddressToAL(target)
+}
+
 // endTx closes any frame the plan left open, finalises and returns the
 // per-transaction access list the StateDB handed out.
 func (x *exec) endTx(tx *Tx) *bal.ConstructionBlockAccessList {
